@@ -15,7 +15,7 @@ LEVEL = 'fault_enumeration'
 TECHNIQUE = 'runtime monitor over scripted lifecycles with injected shutdown faults (fresh interpreter per lifecycle, loopback gRPC)'
 RULE = ('lifecycles = product of pre-existing hooks (sys x threading: none / a function) x tracing enabled or NO_TRACE '
         'x op sequence (start, start-start, shutdown-shutdown) x fault subset of {service stopped, service answers '
-        'errors, pending send fails (immediately / released while flush waits), each of 1-3 plugins raising in '
+        'errors, pending send fails (immediately / released while flush waits / only the oldest one while the others are still on their way), each of 1-3 plugins raising in '
         'shutdown}; the 4x2x3 hook/sequence product is enumerated exhaustively with no fault, fault subsets are '
         'seeded; non-trivial = a pre-existing hook existed, or a fault was injected, or an op was repeated; distinct by '
         'canonical lifecycle')
@@ -46,7 +46,8 @@ def plan(tier, seed):
 
 
 FAULTS = ['server_stopped', 'poll_errors', 'send_fails', 'send_fails_during_flush', 'plugin0_shutdown',
-          'plugin1_shutdown', 'plugin2_shutdown', 'poll_slow', 'same_plugin_names', 'plugin_named_poll']
+          'plugin1_shutdown', 'plugin2_shutdown', 'poll_slow', 'same_plugin_names', 'plugin_named_poll',
+          'first_send_fails_rest_slow']
 
 
 def gen_case(seed):
@@ -54,7 +55,10 @@ def gen_case(seed):
     nplug = r.randrange(1, 4)
     faults = [f for f in FAULTS if r.chance(0.25) and not (f[:6] == 'plugin' and f[6].isdigit() and int(f[6]) >= nplug)]
     if not faults:
-        faults = [r.pick(FAULTS[:4] + ['plugin0_shutdown', 'poll_slow', 'same_plugin_names', 'plugin_named_poll'])]
+        faults = [r.pick(FAULTS[:4] + ['plugin0_shutdown', 'poll_slow', 'same_plugin_names', 'plugin_named_poll',
+                                       'first_send_fails_rest_slow'])]
+    if 'first_send_fails_rest_slow' in faults:
+        faults = [f for f in faults if f not in ('send_fails', 'send_fails_during_flush', 'server_stopped')]
     if 'poll_slow' in faults and 'server_stopped' in faults:
         faults.remove('server_stopped')
     return {'pre_sys': r.chance(0.5), 'pre_thr': r.chance(0.5), 'no_trace': r.chance(0.25), 'ops': r.pick(SEQS_MORE),
@@ -309,6 +313,18 @@ def child_lifecycle(case):
                         srv.fail_send = grpc.StatusCode.INTERNAL
                         gate = threading.Event()
                         srv.send_gate = gate
+                    if 'first_send_fails_rest_slow' in case['faults']:
+                        # the oldest pending delivery fails at once, the others are still on their way
+                        failed_first = []
+
+                        def first_only(request):
+                            with srv.lock:
+                                if failed_first:
+                                    return None
+                                failed_first.append(1)
+                            return grpc.StatusCode.UNAVAILABLE
+                        srv.fail_send = first_only
+                        srv.send_delay = 0.3
                     if 'poll_errors' in case['faults']:
                         srv.script = [('error', grpc.StatusCode.UNAVAILABLE)] * 50
                     before = len(plugins.events(None, 'decorate')) + _count_snap_events(srv)
